@@ -1214,7 +1214,7 @@ func (w *world) doExec(p vhlib.ParsedLine) {
 	for _, rc := range b.rcs {
 		stoC, collC = stoC.Add(rc.Storage), collC.Add(rc.Collateral)
 	}
-	extra := fmt.Sprintf(" fin=%d burn=%s stoc=%s collc=%s htc=%s", fin, cs(burn), cs(stoC), cs(collC), cs(hostTotal))
+	extra := fmt.Sprintf(" fin=%d burn=%s stoc=%s collc=%s htc=%s ibc=%s", fin, cs(burn), cs(stoC), cs(collC), cs(hostTotal), cs(pt.InitBaseCost))
 	_ = fcBefore
 	w.finishPaid("exec", op, pm, before, order, spent, outcome, extra)
 	for _, tok := range b.descr {
@@ -1452,4 +1452,31 @@ func (w *world) doMine(p vhlib.ParsedLine) {
 		w.havePT = false // account withdrawals expire relative to the table's height: register a new one
 	}
 	w.tr.Line(fmt.Sprintf("mine n=%d", n), w.dump())
+}
+
+// setprices cp= sp= ip= ep= bp= ap= cm=   (the operator changes the prices with UpdateSettings)
+//
+// The registered RHP3 price table is NOT renewed: the RPCs that follow under its UID (renew3, execute,
+// fund account, ...) must be priced AND accounted with the table's prices, the RHP2 RPCs with the new
+// settings.
+func (w *world) doSetPrices(p vhlib.ParsedLine) {
+	pr := pricesFrom(p)
+	s := w.node.Settings.Settings()
+	s.ContractPrice = pr.contract
+	s.StoragePrice = pr.storage
+	s.IngressPrice = pr.ingress
+	s.EgressPrice = pr.egress
+	s.BaseRPCPrice = pr.baseRPC
+	s.SectorAccessPrice = pr.sectorAccess
+	s.CollateralMultiplier = pr.collMul
+	if err := w.node.Settings.UpdateSettings(s); err != nil {
+		w.t.Fatal("update settings:", err)
+	}
+	w.pr = pr
+	stale := 0
+	if w.havePT {
+		stale = 1
+		w.tr.Count("setprices:with_registered_table")
+	}
+	w.tr.Line("setprices "+pr.String()+fmt.Sprintf(" stalept=%d", stale), w.dump())
 }
